@@ -10,6 +10,7 @@ import Driver.EGraph
 import Driver.ProofCk
 import Driver.Containers
 import Driver.Displaced
+import Driver.Closure
 open Driver
 
 structure St where
@@ -35,6 +36,7 @@ def dispatch (s : St) (line : String) : St × String :=
   | "pk" :: rest => (s, pkStep rest)
   | "cn" :: rest => (s, cnStep rest)
   | "dt" :: rest => let (p, o) := dtStep s.dt rest; ({ s with dt := p }, o)
+  | "cl" :: rest => (s, clStep rest)
   | _ => (s, "bad-op")
 
 partial def loop (h : IO.FS.Stream) (out : IO.FS.Stream) (s : St) : IO Unit := do
